@@ -17,6 +17,9 @@ fn docs(args: &[String]) {
     let max_objects = arg_u64(args, "--max-objects", 6) as usize;
     let max_revs = arg_u64(args, "--max-revs", 1) as usize;
     let deep = arg_u64(args, "--deep", 0) == 1;
+    // beyond the statement of C02: updates may delete objects (free entries) and use a freed number again with the
+    // next generation.  Off by default; nothing below draws from the generator unless it is on.
+    let free_mode = arg_u64(args, "--free", 0) == 1;
     let mut out = NdjsonOut::create(&arg(args, "--out").unwrap());
     let mut rng = Rng::new(seed ^ 0xC02);
     for i in 0..n {
@@ -71,9 +74,20 @@ fn docs(args: &[String]) {
         let mut live: Vec<(u32, u16)> = doc.objects.keys().copied().collect();
         let mut current: Vec<((u32, u16), Object)> = doc.objects.iter().map(|(k, v)| (*k, v.clone())).collect();
         let mut trailer = doc.trailer.clone();
+        let mut freed: Vec<(u32, u16)> = vec![]; // numbers that are free now, with the generation of their next use
         for r in 0..nrevs {
+            let mut free_now: Vec<(u32, u16)> = vec![];
             if r > 0 {
                 current.clear();
+                if free_mode {
+                    // delete some live objects (never the integer a stream's Length refers to)
+                    for id in live.clone() {
+                        if !length_objs.contains(&id) && id.1 < 65535 && rng.chance(1, 4) {
+                            live.retain(|x| *x != id);
+                            free_now.push((id.0, id.1 + 1));
+                        }
+                    }
+                }
                 // replace a random subset of live objects (keeping their generation), add 0-2 new ones
                 for id in live.clone() {
                     // (a stream's Length object keeps its value: replacing it would make the file invalid)
@@ -82,13 +96,18 @@ fn docs(args: &[String]) {
                     }
                 }
                 for _ in 0..rng.below(3) {
-                    next += 1;
-                    let id = (next, 0);
+                    // (free mode) a number freed by an earlier revision may be used again, with the recorded generation
+                    let id = if free_mode && !freed.is_empty() && rng.chance(1, 2) {
+                        freed.remove(rng.below(freed.len()))
+                    } else {
+                        next += 1;
+                        (next, 0)
+                    };
                     live.push(id);
                     current.push((id, if rng.chance(1, 4) { g.stream(&mut rng) } else { g.object(&mut rng, 0) }));
                 }
-                if current.is_empty() {
-                    // an update revision defines at least one object
+                if current.is_empty() && !(free_mode && !free_now.is_empty() && rng.chance(1, 2)) {
+                    // an update revision defines at least one object (or, in free mode, deletes at least one)
                     if live.is_empty() || rng.chance(1, 2) {
                         next += 1;
                         live.push((next, 0));
@@ -132,7 +151,13 @@ fn docs(args: &[String]) {
                     comp.push(json!({"cnum": next, "members": gmembers}));
                 }
             }
-            revs.push(json!({"objects": plain, "comp": comp, "trailer": dict_to_file_tla(&trailer)}));
+            if free_mode {
+                let fr: Vec<Value> = free_now.iter().map(|(n, g)| json!([n, g])).collect();
+                revs.push(json!({"objects": plain, "comp": comp, "trailer": dict_to_file_tla(&trailer), "free": fr}));
+                freed.extend(free_now);
+            } else {
+                revs.push(json!({"objects": plain, "comp": comp, "trailer": dict_to_file_tla(&trailer)}));
+            }
         }
         out.put(&json!({
             "version": bytes_to_json(doc.version.as_bytes()),
@@ -178,7 +203,7 @@ fn main() {
         Some("docs") => docs(&args),
         Some("load") => load(&args),
         _ => {
-            eprintln!("usage: c02 docs --seed S --n N --out F | load --in F --out F");
+            eprintln!("usage: c02 docs --seed S --n N [--max-objects K --max-revs R --deep 0|1 --free 0|1] --out F | load --in F --out F");
             std::process::exit(2)
         }
     }
